@@ -182,6 +182,23 @@ EDGE = [
 ]
 
 
+def systematic_edges():
+    """every combination of join kinds over chains of 2 and 3 tables x the table a WHERE predicate is about x the kind of predicate:
+    pushdown decisions depend on exactly these three things"""
+    out = []
+    kinds = ['join', 'left join', 'right join', 'full join']
+    preds = ['{t}.b is null', '{t}.b is not null', '{t}.b = 1', 'coalesce({t}.b, 0) = 0']
+    for j1 in kinds:
+        for t in ('t1', 't2'):
+            for pr in preds:
+                out.append(f'select * from int1.t1 {j1} int2.t2 on t1.a = t2.a where ' + pr.format(t=t))
+        for j2 in kinds:
+            for t in ('t1', 't2', 't3'):
+                for pr in preds[:3]:
+                    out.append(f'select * from int1.t1 {j1} int2.t2 on t1.a = t2.a {j2} int3.t3 on t2.a = t3.a where ' + pr.format(t=t))
+    return out
+
+
 # ------------------------------------------------------------------ sqlite reference (validation of the Coq evaluator)
 def sqlite_rows(sql, db):
     con = sqlite3.connect(':memory:')
@@ -426,7 +443,7 @@ def run(tier, seed, replay=None):
         rp = json.loads(open(replay).read())
         inputs = [(rp['sql'], rp.get('catalog', 'names'))] if 'sql' in rp else []
     else:
-        inputs = [(s, c) for s in EDGE for c in ('names',)]
+        inputs = [(s, c) for s in EDGE + systematic_edges() for c in ('names',)]
         n = 250 if tier == 'quick' else 4000
         for _ in range(n):
             inputs.append((gen_statement(rng, ALL_FEATURES), rng.choice(cats)[0]))
